@@ -92,12 +92,15 @@ type corsCase struct {
 }
 
 // Every line of .in:  cors <domain> <ingress path prefix> <route path> <method> <Origin values> <ACR-Method values> <ACR-Headers values>
-//   route path = what chi routes on: req.URL.RawPath if set, else req.URL.Path, "/" if empty (mux.go routeHTTP); the URL is
-//   parsed from the request target by net/url, i.e. percent-encoded targets are routed in their encoded form
+//
+//	route path = what chi routes on: req.URL.RawPath if set, else req.URL.Path, "/" if empty (mux.go routeHTTP); the URL is
+//	parsed from the request target by net/url, i.e. percent-encoded targets are routed in their encoded form
+//
 // Every line of .impl: <vary> <status if preflight else 0> <acao> <acac> <acam> <acah>
-//   vary: 0 none, 1 "Origin" (actual-request path ran), 2 preflight Vary (preflight path ran), 3 both
-//   acao/acam/acah: 0 absent, 1 present and equal to the request's Origin / ACR-Method / ACR-Headers values, 2 other
-//   acac: 0 absent, 1 exactly "true", 2 other
+//
+//	vary: 0 none, 1 "Origin" (actual-request path ran), 2 preflight Vary (preflight path ran), 3 both
+//	acao/acam/acah: 0 absent, 1 present and equal to the request's Origin / ACR-Method / ACR-Headers values, 2 other
+//	acac: 0 absent, 1 exactly "true", 2 other
 func runCors(args []string) error {
 	fs := flag.NewFlagSet("cors", flag.ExitOnError)
 	out := fs.String("out", "cors", "output prefix")
